@@ -37,7 +37,7 @@ class PathExplosion(Exception):
 
 
 class Event:
-    __slots__ = ("kind", "bb", "name", "fn", "args", "result", "place", "value", "extra", "fnpath", "term")
+    __slots__ = ("kind", "bb", "name", "fn", "args", "result", "place", "value", "extra", "fnpath", "term", "vers", "ncond")
 
     def __init__(self, kind, bb, fnpath, **kw):
         self.kind = kind
@@ -51,6 +51,8 @@ class Event:
         self.value = kw.get("value")
         self.extra = kw.get("extra")
         self.term = kw.get("term")
+        self.vers = kw.get("vers")
+        self.ncond = kw.get("ncond")
 
     def __repr__(self):
         if self.kind == "call":
@@ -140,7 +142,10 @@ class Sym:
                 else:
                     e = ("field", e, el.get("name") if el.get("name") is not None else el["i"], el["ty"])
             elif k == "downcast":
-                e = ("downcast", e, el.get("name") if el.get("name") is not None else el["v"])
+                if e[0] == "agg" and e[1] == "adt" and e[3] == el.get("name"):
+                    pass          # downcast of a known variant is transparent
+                else:
+                    e = ("downcast", e, el.get("name") if el.get("name") is not None else el["v"])
             elif k == "index":
                 e = ("index", e, st.env.get("_%d" % el["l"], ("unk", "_%d" % el["l"])))
             elif k == "cindex":
@@ -189,7 +194,7 @@ class Sym:
             e = self.read_place(st, rv["place"])
             if e[0] == "agg" and e[1] == "adt":
                 return ("variant", e[2], e[3])
-            return ("discr", e)
+            return ("discr", e, rv["place"].get("ty"))
         if k == "aggregate":
             return ("agg", rv["ak"], rv.get("adt") or rv.get("def"), rv.get("variant_name"),
                     tuple(self.operand(st, o) for o in rv["ops"]))
@@ -302,7 +307,8 @@ class Sym:
                 return
             if k == "assert":
                 c = self.operand(st, t["cond"])
-                st.events.append(Event("assert", bb, fnpath, value=c, extra=t))
+                st.events.append(Event("assert", bb, fnpath, value=c, extra=t, ncond=len(st.conds), term=t,
+                                       vers=dict(st.ver)))
                 bb = t["t"]
                 continue
             if k == "drop":
@@ -404,7 +410,8 @@ class Sym:
                     res = ("pure", name, args, vers)
                 else:
                     res = ("call", name, args, uid)
-                st.events.append(Event("call", bb, fnpath, name=name, fn=fn, args=args, result=res, term=t))
+                st.events.append(Event("call", bb, fnpath, name=name, fn=fn, args=args, result=res, term=t,
+                                       vers=tuple(st.ver.get(a, 0) for a in args), ncond=len(st.conds)))
                 if not is_pure:
                     for a in t["args"]:
                         self.havoc_arg(st, a, uid)
@@ -585,6 +592,10 @@ class Interval:
             self.hi = c if self.hi is None else min(self.hi, c)
         elif op == "Ne":
             self.excluded.add(c)
+            while self.lo is not None and self.lo in self.excluded:
+                self.lo += 1
+            while self.hi is not None and self.hi in self.excluded:
+                self.hi -= 1
 
     def empty(self):
         return self.lo is not None and self.hi is not None and self.lo > self.hi
